@@ -59,7 +59,8 @@ class AstToSqlVisitor(visitor.NodeVisitor):
 
     def visit_DateTime(self, node: ast.DateTime) -> str:
         ":meta private:"
-        sql_ts = node.val.replace("T", " ")
+        # The date/time separator is case insensitive in OData:
+        sql_ts = node.val.replace("T", " ").replace("t", " ")
         # Single quotes for datetime constants acc SQL Standard
         return f"TIMESTAMP '{sql_ts}'"
 
